@@ -69,6 +69,12 @@ M = [
   "        self.max_version += 1;\n        versioned_value.version = self.max_version;\n        versioned_value.value = \"\".to_string();", "        self.max_version += 2;\n        versioned_value.version = self.max_version;\n        versioned_value.value = \"\".to_string();"),
  ("M30-dead-pick-not-forced", ["C17"], "chitchat/src/server.rs",
   "    let selection_probability = dead_nodes_count as f64 / (live_nodes_count + 1) as f64;", "    let selection_probability = dead_nodes_count as f64 / (live_nodes_count + 2) as f64;"),
+ ("M31-udp-garbage-is-fatal", ["C19","C09"], "chitchat/src/transport/udp.rs",
+  "                warn!(payload_len=len, from=%from_addr, err=%err, \"invalid-chitchat-payload\");\n                Ok(None)", "                warn!(payload_len=len, from=%from_addr, err=%err, \"invalid-chitchat-payload\");\n                Err(err)"),
+ ("M32-live-pool-from-dead-set", ["C17"], "chitchat/src/server.rs",
+  "        let live_nodes = chitchat_guard\n            .live_nodes()\n            .filter(|chitchat_id| *chitchat_id != chitchat_guard.self_chitchat_id())", "        let live_nodes = chitchat_guard\n            .dead_nodes()\n            .filter(|chitchat_id| *chitchat_id != chitchat_guard.self_chitchat_id())"),
+ ("M33-catchup-reports-heartbeat", ["C18"], "chitchat/src/lib.rs",
+  "        self.failure_detector\n            .get_or_create_sampling_window(chitchat_id);", "        self.failure_detector.report_heartbeat(chitchat_id);"),
 ]
 os.makedirs(OUT, exist_ok=True)
 assert subprocess.run(["git","-C",REPO,"status","--porcelain"],capture_output=True,text=True).stdout.strip()=="", "repo not clean"
